@@ -31,7 +31,7 @@ TEXT = {
     "C07": (COMMON + "Truth table over all ordered pairs of the value universe for 6 comparators, ||, &&, !; short-circuiting checked by an erroring right "
             "operand and, on the interpreter machine, by the ShortCircuit invariant.", "6, 14.2"),
     "C08": (COMMON + "Declarative Python slicing = the code's capSlice formulation on the window (TLC); saturation lemma for all integers (Apalache, "
-            "thorough); window + boundary integers up to +-2^63 replayed.", "6, 14.2"),
+            "thorough); window + boundary integers up to +-2^63 replayed, on generic arrays and on typed Go slices (empty and non-empty).", "6, 14.2"),
     "C09": (COMMON + "Per-function algebraic theorems (sorted permutation, stability, first extremal element, right-biased merge, ...) on the spec; every "
             "typed value x every function form replayed; big whole numbers; recorded traces validated.", "6, 14.2"),
     "C10": (COMMON + "Full name x arity x argument-type matrix incl. unknown names, variadic positions, expression references in value positions and "
